@@ -581,14 +581,32 @@ def run_workload(ch: Choices, variant: str, callers: List[List[dict]], uploads_s
                 async def one(rec: CallRec):
                     q, op, variables, args, kw = prep(rec, N)     # harness code
                     rec.t_call = loop.next_seq()
-                    try:
+
+                    async def the_call():
                         if rec.spec["via"] == "execute":
                             resp = await client.execute(q, op, variables, **kw)
                             rec.response = resp
-                            rec.outcome = ("ok", _outcome_value(client.get_data(resp)))
+                            return ("ok", _outcome_value(client.get_data(resp)))
+                        val = await getattr(client, rec.spec["via"])(**args, **kw)
+                        return ("ok", _outcome_value(val))
+                    try:
+                        if rec.spec.get("fault") == "cancel" and concurrent:
+                            # the caller gives up on this call at a drawn moment (wait_for time-out, task group teardown):
+                            # the call is cancelled wherever it is; the caller then goes on with its next call
+                            t = asyncio.ensure_future(the_call())
+                            delay = [0.0, 0.0, 0.005, 0.5, 20.0][ch.draw("fault.cancel_after", 5)]
+                            await asyncio.wait([t], timeout=delay)
+                            if not t.done():
+                                t.cancel()
+                                try:
+                                    await t
+                                except asyncio.CancelledError:
+                                    pass
+                                rec.outcome = ("cancelled",)
+                            else:
+                                rec.outcome = t.result()
                         else:
-                            val = await getattr(client, rec.spec["via"])(**args, **kw)
-                            rec.outcome = ("ok", _outcome_value(val))
+                            rec.outcome = await the_call()
                     except asyncio.CancelledError:
                         rec.outcome = ("hang",)
                         raise
